@@ -398,6 +398,12 @@ func opFailed(obs []string) bool {
 
 // crashOracle runs after op was applied with recording on.  b0/pre: state before; evs: recording.
 func (e *Env) crashOracle(op *Op, obs []string, b0 []byte, pre map[uint32]string, evs []ioEv) (out []*Violation) {
+	if h, _, err := decodeRaw(b0); err == nil && h.DOff >= h.DataOff {
+		// another writer's layout with the descriptor table behind the data section: outside the
+		// hypotheses of the C09 theorems (WF.tabRegion) — there a compacting delete truncates the
+		// table away before it rewrites it (DESIGN 10.6, observation)
+		return nil
+	}
 	post := objMap(e.f)
 	// the operation's own targets are not bystanders even when, by coincidence of the clock, the
 	// completed operation left their line unchanged (set-metadata with the default time in the
